@@ -10,6 +10,8 @@
      7 dict               -> ( dict warns )                                         ValidatorParser.parse
      8 files cli          -> run_res                                                options.parse_args
      9 name               -> texts                                                  parse_toml_section_name
+    10 secs               -> pres | (3)                                             IniConfigParser.parse, TRANSLATED code (Gen/IniCode.v), (3) = stuck
+    11 text triple        -> ( (tag b) (tag text) )                                 is_quoted / unquote_str, TRANSLATED code; tag 3 = stuck
    tags: 0 ok, 1 error, 2 unsupported.  cval := (0 text) | (1 texts).  dict := ((key cval) ...).
    tomlv := (0 text) | (1 z) | (2 b) | (3 (v...)) | (4 ((k v)...)) | (5 truthy text).
    file := ( (toml?) (ini?) ) with toml = tomlv table payload ((k v)...), ini = ((name ((k v)...)) ...), each wrapped as option.
@@ -18,6 +20,7 @@
 From Coq Require Import ZArith NArith List Bool.
 From PydoctorVerif Require Import Base.Sexp Model.ReDeriv Model.OptTypes Gen.TablesC20 Spec.PyStrLit Spec.PyListLit
      Model.Quote Model.IniValue Model.TomlValue Model.Validator Model.Merge Model.Options.
+From PydoctorVerif Require Model.IniIR Gen.IniCode.
 Import ListNotations.
 Local Open Scope Z_scope.
 
@@ -129,6 +132,16 @@ Definition of_ini_res (r : ini_res) : sexp :=
   | IUnsup => L [A 3]
   end.
 
+Definition of_eres_ir (r : IniIR.eres) : sexp :=
+  match r with
+  | IniIR.EV (IniIR.VStr t) => L [A 0; of_text t]
+  | IniIR.EV (IniIR.VBool b) => L [A 0; of_bool b]
+  | IniIR.EV _ => L [A 3; L []]
+  | IniIR.ERaise _ => L [A 1; L []]
+  | IniIR.EUnsup => L [A 2; L []]
+  | IniIR.EStuck => L [A 3; L []]
+  end.
+
 Definition run (s : sexp) : sexp :=
   let fn := to_Z (nth_s 0 s) in
   if Z.eqb fn 0 then
@@ -151,4 +164,13 @@ Definition run (s : sexp) : sexp :=
   else if Z.eqb fn 8 then
     of_run_res (pydoctor_parse_args (map to_file (to_list (nth_s 1 s))) (map to_tok (to_list (nth_s 2 s))))
   else if Z.eqb fn 9 then of_texts (parse_toml_section_name (to_text (nth_s 1 s)))
+  else if Z.eqb fn 10 then
+    match IniIR.ini_parse_ir IniCode.ini_code config_sections ini_split_ml (to_ini (nth_s 1 s)) with
+    | Some p => of_pres p
+    | None => L [A 3]
+    end
+  else if Z.eqb fn 11 then
+    let t := IniIR.VStr (to_text (nth_s 1 s)) in
+    let tr := IniIR.VBool (to_bool (nth_s 2 s)) in
+    L [of_eres_ir (IniIR.is_quoted_ir IniCode.ini_code t tr); of_eres_ir (IniIR.unquote_str_ir IniCode.ini_code t tr)]
   else bad_input.
